@@ -113,7 +113,7 @@ def run_until_death(exe, lines, env=None):
     if len(out) == len(lines):
         return out, None
     k = len(out)
-    return out, (lines[k] if k < len(lines) else "?", rc, err[-1500:])
+    return out, (lines[k] if k < len(lines) else "?", rc, err[:2500] + "\n...\n" + err[-800:])
 
 
 def part_formatters(c, drv, kconst):
@@ -201,7 +201,7 @@ def part_formatters(c, drv, kconst):
     if death:
         first = [x for x in death[2].split("\n") if "ERROR" in x or "runtime error" in x or "Assertion" in x]
         c.violation("sanitizer-report(library): %s on %s" % ((first or ["harness died rc=%s" % death[1]])[0][:200], death[0][:120]),
-                    {"harness": "hx_tostring (ASan, exact-size destination)", "case": death[0][:600], "stderr": death[2][-1200:]})
+                    {"harness": "hx_tostring (ASan, exact-size destination)", "case": death[0][:600], "stderr": death[2][:2500]})
 
 
 # ---------------------------------------------------------------------------
@@ -334,10 +334,14 @@ def stream_matrix(c):
             streams += b64
         if base.name == "warc_parallel":
             streams = warc + gen[:12]
-        if c.tier == "quick" and base.name not in ("b64filter", "warc_parallel", "truecase", "foldfilter", "idf"):
+        if c.tier == "quick" and base.name not in ("b64filter", "warc_parallel", "truecase", "foldfilter", "idf", "shard"):
             # quick tier: every tool sees the structural cases; the megabyte cases go to a rotating third of the tools
             heavy = {"long-line", "long-no-newline", "long-utf8", "many-empty", "long-spaces", "b64-long"}
-            if (hash(base.label) + c.seed) % 3:
+            import zlib
+            if base.name == "cache":
+                # known deadlock on long lines (F20-6): one megabyte case keeps it visible, each costs a full timeout
+                streams = [s for s in streams if s[0] not in heavy or s[0] == "long-line"]
+            elif (zlib.crc32(base.label.encode()) + c.seed) % 3:
                 streams = [s for s in streams if s[0] not in heavy]
         for name, data in streams:
             jobs.append((tr.Tool(base.name, base.args, data, base.files, base.outputs, base.kind, base.label), name))
